@@ -245,7 +245,10 @@ func catchPanic(function func()) (err error) {
 						return
 					}
 				}
-				err = errors.New(caught.string())
+				// Converting the thrown value to text may run script code (toString), which may throw
+				if nested := catchPanic(func() { err = errors.New(caught.string()) }); nested != nil {
+					err = nested
+				}
 				return
 			}
 			panic(caught)
